@@ -460,7 +460,9 @@ try:
     maps = {{hs: c19.role_targets(d, hs) for hs in (0, 1, 2, 3)}}
     diff = sorted(k for k in maps[0] if any(maps[hs].get(k) != maps[0][k] for hs in maps))
     for k in diff: print(k, "->", sorted({{maps[hs].get(k) for hs in maps}}))
-    if diff:
+    und = c19.undeclared_targets(d, maps[0])
+    for k, v in list(und.items())[:8]: print(k, "points at", v, "which no generated page declares")
+    if diff or und:
         print("REPRODUCED"); sys.exit(1)
 finally:
     shutil.rmtree(d, ignore_errors=True)
@@ -478,6 +480,35 @@ def page_sets(d):
             pass
     actual = {os.path.relpath(os.path.join(r_, f_), d) for r_, _, fs_ in os.walk(d) for f_ in fs_}
     return expected, actual
+
+
+def declared_names(d):
+    """fully qualified names the generated pages DECLARE: `.. py:currentmodule:: M` followed by `.. py:data:: X` (or py:function / py:class /
+    py:attribute) declares M.X -- this is what a cross-reference `:attr:`~M.X`` has to find"""
+    out = set()
+    for root, _, files in os.walk(d):
+        for f in files:
+            cur = None
+            for line in open(os.path.join(root, f), encoding="utf-8"):
+                m = re.match(r"\s*\.\. py:currentmodule:: (\S+)", line)
+                if m:
+                    cur = m.group(1)
+                    continue
+                m = re.match(r"\s*\.\. py:(?:data|function|class|attribute|method):: ([\w.]+)", line)
+                if m and cur:
+                    out.add(cur + "." + m.group(1))
+    return out
+
+
+def undeclared_targets(d, role_map):
+    """cross-reference targets (as the role processors resolve them) that no generated page declares"""
+    decl = declared_names(d)
+    bad = {}
+    for role, resolved in sorted(role_map.items()):
+        for t in re.findall(r":(?:attr|data|obj|func|class):`~?([\w.]+)`", str(resolved)):
+            if t not in decl:
+                bad[role] = t
+    return bad
 
 
 def tree_digest(d):
@@ -582,6 +613,13 @@ def run(ctx):
                                   "; ".join(f"{k} -> {sorted({maps[hs].get(k) for hs in maps})}" for k in diff[:6]), REPLAY_ROLES.format(root=ROOT))
                 else:
                     ctx.ob("E:cross-references independent of the hash seed", "discharged", nontrivial=False)
+            if maps.get(0):
+                und = undeclared_targets(d1, maps[0])
+                if und:
+                    ctx.violation("C19:E:cross-reference targets not declared on any page", f"{len(und)} cross-references point at names no generated page declares, e.g. " +
+                                  "; ".join(f"{k} -> {v}" for k, v in list(und.items())[:4]), REPLAY_ROLES.format(root=ROOT))
+                else:
+                    ctx.ob("E:every cross-reference target is declared (currentmodule + py:data) on a generated page", "discharged", nontrivial=False)
             srcs = docsrc.all_documented_sources()
             expected, actual = page_sets(d1)
             if expected == actual:
